@@ -182,17 +182,21 @@ Fixpoint release_all (l : list rkey) (f : factory) : option factory :=
   | r :: l' => match release r f with Some g => release_all l' g | None => None end
   end.
 
-(* common.InformerMap.Set: the map is keyed by the resource; a second entry for
-   the same key replaces the first ResourceInformer (which is then unreachable) *)
+(* common.InformerMap.Set on a key the map does not hold yet *)
 Definition imap_set (r : rkey) (m : list rkey) : list rkey :=
   if memb r m then m else (m ++ [r])%list.
 
-(* the loops `for _, x := range rules { informer, err := dynInformers.Resource(..); if err != nil {return}; m.Set(..) }` *)
+(* the loops
+     for _, x := range rules {
+       gvr := ...; if m.Get(gvr) != nil { continue }           // listed more than once: one subscription serves all entries
+       informer, err := dynInformers.Resource(..); if err != nil { return }
+       m.Set(gvr, informer) } *)
 Fixpoint open_informers (rs : list rule) (m : list rkey) (f : factory) : factory * list rkey * bool :=
   match rs with
   | [] => (f, m, true)
   | r :: rs' =>
-      if can_subscribe f r
+      if memb (ru_key r) m then open_informers rs' m f
+      else if can_subscribe f r
       then open_informers rs' (imap_set (ru_key r) m) (acquire (ru_key r) f)
       else (f, m, false)
   end.
@@ -331,16 +335,28 @@ Definition start_into (fl : flavor) (n : cname) (s : spec) (st : state) (acts : 
   | (f, Panic) => (mkState (insts st) f, RPanic, acts)
   end.
 
-(* reconcileCompositeController / reconcileDecoratorController *)
-Definition reconcile_controller (fl : flavor) (n : cname) (s : spec) (st : state) : step_result :=
+(* stopIfSpecChanged (composite) / the first half of reconcileDecoratorController:
+   a controller started with another spec is stopped and removed.  None: Stop panicked. *)
+Definition stop_if_changed (n : cname) (s : spec) (st : state) : option (state * list action) :=
   match ifind n (insts st) with
   | Some i =>
-      if spec_eqb s (i_spec i) then (st, ROk, []) else
+      if spec_eqb s (i_spec i) then Some (st, []) else
       match stop i (refs st) with
-      | None => (st, RPanic, [])
-      | Some f => start_into fl n s (mkState (iremove n (insts st)) f) [Stopped n (s_id (i_spec i))]
+      | None => None
+      | Some f => Some (mkState (iremove n (insts st)) f, [Stopped n (s_id (i_spec i))])
       end
-  | None => start_into fl n s st []
+  | None => Some (st, [])
+  end.
+
+(* reconcileCompositeController / reconcileDecoratorController *)
+Definition reconcile_controller (fl : flavor) (n : cname) (s : spec) (st : state) : step_result :=
+  match stop_if_changed n s st with
+  | None => (st, RPanic, [])
+  | Some (st1, acts) =>
+      match ifind n (insts st1) with
+      | Some _ => (st1, ROk, acts)             (* already started, nothing has changed *)
+      | None => start_into fl n s st1 acts
+      end
   end.
 
 Definition reconcile (fl : flavor) (n : cname) (l : lookup) (st : state) : step_result :=
@@ -359,11 +375,18 @@ Definition reconcile (fl : flavor) (n : cname) (l : lookup) (st : state) : step_
       match fl with
       | Decorator => reconcile_controller fl n s st
       | Composite =>
-          match crd with
-          | GvUnparsable => (st, RErr, [])
-          | CrdMissing => (st, RErr, [])
-          | CrdNoStatus => (st, ROk, [])       (* "ignoring": return nil before the controller map is consulted *)
-          | CrdOk => reconcile_controller fl n s st
+          (* a changed spec retires the running controller before any check can return early *)
+          match stop_if_changed n s st with
+          | None => (st, RPanic, [])
+          | Some (st1, acts) =>
+              match crd with
+              | GvUnparsable => (st1, RErr, acts)
+              | CrdMissing => (st1, RErr, acts)
+              | CrdNoStatus => (st1, ROk, acts)    (* "ignoring": return nil *)
+              | CrdOk =>
+                  let '(st2, out, acts2) := reconcile_controller fl n s st1 in
+                  (st2, out, (acts ++ acts2)%list)
+              end
           end
       end
   end.
@@ -427,17 +450,6 @@ Definition follows_specb (n : cname) (s : spec) (st : state) : bool :=
   | None => true
   | Some i => spec_eqb (i_spec i) s
   end.
-
-(* the resources named by the rules are pairwise different (no rule is repeated) *)
-Definition distinct_rulesb (rs : list rule) : bool := nodupb (map ru_key rs).
-Definition spec_distinctb (s : spec) : bool := distinct_rulesb (s_parents s) && distinct_rulesb (s_children s).
-
-Definition event_distinctb (e : event) : bool :=
-  match e with
-  | Reconcile _ (LFound s _) => spec_distinctb s
-  | _ => true
-  end.
-Definition history_distinctb (h : list event) : bool := forallb event_distinctb h.
 
 (* the composite Reconcile reaches reconcileCompositeController *)
 Definition crd_passesb (fl : flavor) (crd : crd_lookup) : bool :=
